@@ -132,9 +132,72 @@ def rule_dispatch(ctx):
     ctx.floor(rid, 3 * 27)
 
 
+def rule_vec_secants(ctx):
+    """the in-register 4- and 8-point kernels carry the right secant tables"""
+    import math
+    rid = "R-VEC-SECANTS"
+    ctx.rule(rid, "the SSE in-register kernels dct8_vec_forward / dct8_vec_inverse multiply the odd half by a literal secant vector: the "
+                  "inverse uses sec_k = 1 / (2 cos((2k+1) pi / 16)), the forward the halved table sec_k / 2 (its 1/2 normalisation is "
+                  "folded in).  (a) where the vector is a literal array in MIR it is compared with the formula (1e-6 relative); (b) "
+                  "contradiction: the two kernels cannot take their table from one and the same argument-less provider - whatever it "
+                  "returns, one of them is off by a factor of two (doubled odd coefficients in the LF injection of 64x64 varblocks)")
+    cr = ctx.prog.crate("jxl_render")
+    sec = [1.0 / (2.0 * math.cos((2 * k + 1) * math.pi / 16.0)) for k in range(4)]
+    want = {"dct8_vec_forward": [x / 2 for x in sec], "dct8_vec_inverse": sec}
+    fns = {}
+    for f in cr.fn_list:
+        last = f.path.split("::")[-1]
+        if last in want and "x86_64" in f.path and f.kind != "Promoted":
+            fns[last] = f
+    if len(fns) != 2:
+        ctx.anchor_missing(rid, "dct8_vec_forward / dct8_vec_inverse in jxl_render::vardct::x86_64::dct")
+        return
+
+    def fval(o):
+        if o[0] != "k":
+            return None
+        t = str(o[1].get("s", ""))
+        m = re.match(r"^(-?[0-9.]+(?:e-?[0-9]+)?)f32$", t)
+        return float(m.group(1)) if m else None
+
+    providers = {}
+    for name, f in fns.items():
+        ctx.seen(f)
+        arrays = []
+        for blk in f.blocks:
+            if blk[2]:
+                continue
+            for st in blk[0]:
+                if st[0] == "=" and st[2][0] == "agg" and st[2][1][0] == "array" and len(st[2][2]) == 4:
+                    vals = [fval(o) for o in st[2][2]]
+                    if all(v is not None for v in vals):
+                        arrays.append(vals)
+        nullary = set()
+        for b, t in f.calls():
+            c = callee(t)
+            if c and not t[2] and not c["fn"].startswith(("core::", "std::")):
+                nullary.add(c.get("res") or c["fn"])
+        providers[name] = nullary
+        match = [a for a in arrays if all(abs(x - w) <= 1e-6 * abs(w) for x, w in zip(a, want[name]))]
+        near = [a for a in arrays if all(0.2 < x < 3.0 for x in a) and a not in match and len(set(a)) == 4]
+        if match:
+            ctx.ok(rid, name + "|table", "literal secant vector equals the formula", nontrivial=True, fn=f)
+        elif near:
+            ctx.bad(rid, name + "|table-differs", "%s multiplies by %s, the definition requires %s" % (name, near[0], [round(x, 7) for x in want[name]]), fn=f)
+        else:
+            ctx.ok(rid, name + "|table-not-literal", "no literal secant vector in this body (taken from elsewhere): only the contradiction test applies", fn=f)
+    shared = providers["dct8_vec_forward"] & providers["dct8_vec_inverse"]
+    if shared:
+        ctx.bad(rid, "shared-provider", "dct8_vec_forward and dct8_vec_inverse both take a table from %s(): the forward kernel needs the halved "
+                "table, so one of the two is off by a factor of two" % sorted(shared)[0].split("::")[-1], fn=fns["dct8_vec_forward"])
+    else:
+        ctx.ok(rid, "no-shared-provider", "the two kernels do not share an argument-less table provider", fn=fns["dct8_vec_forward"])
+
+
 def main(pid, tier, repo=None):
     ctx = Ctx(pid, tier, configs=("workspace",), repo=repo)
     rule_dispatch(ctx)
+    rule_vec_secants(ctx)
     specconst.run(ctx, pid)
     from . import enummap
     enummap.run(ctx, pid)
